@@ -45,6 +45,7 @@ structure Deep (st : LoopSt) (oa od : Nat) : Prop where
   deeper : od < st.p.depth ∨ (od = st.p.depth ∧ oa < (st.p.getLvl st.p.lvlIdx).ad)
   zeros : ∀ i, st.p.depth ≤ i → st.p.getLvl i = Level.zero
   rootArr : st.p.ptype = 2 → st.p.depth = 1 → 1 ≤ (st.p.getLvl st.p.lvlIdx).ad
+  md255 : st.p.maxDepth ≤ 255
 
 /-- `st'` is `st` after exactly the value `v` (whose encoding was at the cursor) has been consumed -/
 structure Passed (st st' : LoopSt) (len : Nat) (views : List EvView) : Prop where
